@@ -1,6 +1,10 @@
 package sim
 
-import "os"
+import (
+	"os"
+	"syscall"
+	"time"
+)
 
 // temp-file helpers (ExportKeysToFile only writes to a named file); the file is removed at once.
 func osCreateTemp() (string, error) {
@@ -14,3 +18,12 @@ func osCreateTemp() (string, error) {
 }
 func osReadFile(n string) ([]byte, error) { return os.ReadFile(n) }
 func osRemove(n string)                   { _ = os.Remove(n) }
+
+// processCPU returns the CPU time (user + system) this process has used so far.
+func processCPU() time.Duration {
+	var ru syscall.Rusage
+	if err := syscall.Getrusage(syscall.RUSAGE_SELF, &ru); err != nil {
+		return 0
+	}
+	return time.Duration(ru.Utime.Nano() + ru.Stime.Nano())
+}
